@@ -375,22 +375,44 @@ def call_blocks(fn, node):
 
 
 def field_reads(fn, field):
-    """[(block, false_target, true_target)] for `switch` on a value copied from `<place>.field`."""
+    """[(block, false_target, true_target, read_block)] for every `switch` on a value copied from `<place>.field`
+    (directly, or through single-assignment locals such as a hoisted `let r = g.field;`); read_block is where the field
+    itself was read."""
+    ndefs = {}
+    for b in fn.blocks:
+        for st in b["st"]:
+            if st.get("k") == "assign" and isinstance(st.get("d"), int):
+                ndefs[st["d"]] = ndefs.get(st["d"], 0) + 1
+        t = b["t"]
+        if t["k"] == "call" and isinstance(t.get("d"), int):
+            ndefs[t["d"]] = ndefs.get(t["d"], 0) + 1
+    carriers = {}
+    changed = True
+    while changed:
+        changed = False
+        for bi, b in enumerate(fn.blocks):
+            for st in b["st"]:
+                if st.get("k") != "assign" or not isinstance(st.get("d"), int) or st["d"] in carriers or ndefs.get(st["d"]) != 1:
+                    continue
+                if st["rv"].get("k") != "use":
+                    continue
+                for o in st["rv"].get("ops") or []:
+                    pl = o.get("cp", o.get("mv"))
+                    if isinstance(pl, list) and pl and isinstance(pl[-1], str) and pl[-1] == field:
+                        carriers[st["d"]] = bi
+                        changed = True
+                    elif isinstance(pl, int) and pl in carriers:
+                        carriers[st["d"]] = carriers[pl]
+                        changed = True
     out = []
     for bi, b in enumerate(fn.blocks):
         t = b["t"]
         if t["k"] != "switch":
             continue
         op = t["op"].get("mv", t["op"].get("cp"))
-        if not isinstance(op, int):
-            continue
-        for st in b["st"]:
-            if st.get("k") == "assign" and st["d"] == op and st["rv"].get("k") == "use":
-                for o in st["rv"]["ops"]:
-                    pl = o.get("cp", o.get("mv"))
-                    if isinstance(pl, list) and pl and isinstance(pl[-1], str) and pl[-1] == field:
-                        f = [tb for v, tb in t["vals"] if v == "0"]
-                        out.append((bi, f[0] if f else None, t["else"]))
+        if isinstance(op, int) and op in carriers:
+            f = [tb for v, tb in t["vals"] if v == "0"]
+            out.append((bi, f[0] if f else None, t["else"], carriers[op]))
     return out
 
 
